@@ -334,8 +334,19 @@ pub fn gen_reply_msg(rng: &mut Rng) -> Vec<u8> {
     v.extend_from_slice(&0u32.to_be_bytes());
     v.extend_from_slice(&[0; 8]);
     v.extend_from_slice(&rng.below(6).to_be_bytes()[4..]);
-    if rng.chance(1, 2) {
-        v.extend_from_slice(&rng.bytes_mul(8, 4));
+    match rng.below(4) {
+        0 | 1 => v.extend_from_slice(&rng.bytes_mul(8, 4)),
+        2 => {
+            // results that are themselves an RPC call, bare or framed by a record mark (what a
+            // relay's CALLIT result can look like): still the body of a reply, never to be answered
+            let c = gen_call(rng);
+            if rng.chance(1, 2) {
+                v.extend_from_slice(&c.encode_tcp());
+            } else {
+                v.extend_from_slice(&c.encode());
+            }
+        }
+        _ => {}
     }
     v
 }
